@@ -16,7 +16,8 @@ RULE = ('seeded structured generators per operation: pitch-class grid (7 steps x
         'symbols (35 root spellings x every abbreviation of the regenerated kind table x modification lists x bass) '
         'rendered to strings, NoteSequences with pitched+drum notes, key signatures and chord/other annotations with '
         'k in -127..127 and arbitrary allowed ranges (edges hit on purpose), melodies with folding ranges, '
-        'progressions, lead sheets, clamp arguments; non-trivial = the case exercises a non-default branch '
+        'progressions and lead sheets (random, and chains that themselves move by the interval applied, with held '
+        'chords and N.C. gaps), clamp arguments; non-trivial = the case exercises a non-default branch '
         '(a note deleted or a drum kept, an alteration respelled, a fold, a chord with bass/modifications, an error); '
         'distinct by canonical input')
 ASSUMPTIONS = [
@@ -233,6 +234,47 @@ def gen_text(rng, p_nc=0.15, p_bad=0.0):
     return gen_sym(rng)
 
 
+def shifted_sym(rng, sym, d):
+    """The same chord d semitones away, root and bass respelled at random among the spellings with at most two
+    accidentals (one of them is the spelling transposition itself produces).  Independent of note_seq."""
+    new = copy.deepcopy(sym)
+    for part in ('root', 'bass'):
+        if new.get(part) is None:
+            continue
+        want = (_own_pc(*new[part]) + d) % 12
+        cands = [[st, al] for st in range(7) for al in (0, 1, -1, 2, -2) if _own_pc(st, al) == want]
+        natural = [c for c in cands if abs(c[1]) <= 1]
+        new[part] = rng.choice(natural if (natural and rng.random() < 0.8) else cands)
+    if parse_figure(render(new)) != code_of(new):
+        new = sym_of_figure(render(new))
+    return new
+
+
+def gen_chain(rng, k, n):
+    """A progression that itself moves by the interval that is then applied (and by -k, 12-k, ...), with held
+    chords, N.C. gaps and fresh chords in between: figure[i+1] is often textually equal to figure[i] transposed."""
+    figs = []
+    cur = None
+    for _ in range(n):
+        r = rng.random()
+        if cur is None or r < 0.12:
+            cur = gen_sym(rng, rich=rng.random() < 0.3)
+            if rng.random() < 0.6:
+                cur['root'][1] = rng.choice([0, 0, 0, 1, -1])
+            if parse_figure(render(cur)) != code_of(cur):
+                cur = sym_of_figure(render(cur))
+            figs.append(cur)
+        elif r < 0.32:
+            figs.append(cur)                                   # held chord
+        elif r < 0.42:
+            figs.append('N.C.')
+        else:
+            d = rng.choice([k, k, k, k, -k, 12 - k, k - 12, k % 12, 2 * k])
+            cur = shifted_sym(rng, cur, d)
+            figs.append(cur)
+    return figs
+
+
 def gen_events(rng, n=None):
     n = rng.randint(0, 14) if n is None else n
     style = rng.random()
@@ -331,6 +373,17 @@ def corpus():
     for evs, lo, hi, key in [([60, 62, 64], 48, 85, 0), ([60, 62, 64], 61, 72, 0), ([60, -2, 72], 36, 49, 5),
                              ([-2, -2], 48, 84, 0), ([], 48, 84, 3), ([60, 61], 55, 79, None), ([0, 127], 60, 72, 11)]:
         out.append({'op': 'squash', 'input': {'lo': lo, 'hi': hi, 'key': key, 'evs': evs}})
+    # progressions that move by the very interval applied (a cached "held chord" must not swallow the next chord)
+    for names, k in [(['C', 'G'], 7), (['C', 'D'], 2), (['Am', 'Em'], -5), (['C', 'C', 'G', 'G', 'N.C.', 'D', 'G'], 7),
+                     (['F', 'N.C.', 'Bb', 'Bb', 'Eb'], 5), (['G', 'C', 'F'], -7), (['Dm7', 'Em7', 'F#m7'], 14),
+                     (['C', 'G', 'C', 'G'], -5), (['E7/G#', 'A7/C#'], 5)]:
+        figs = [f if f == 'N.C.' else sym_of_figure(f) for f in names]
+        out.append({'op': 'prog', 'input': {'k': k, 'figs': figs}})
+        out.append({'op': 'ls_t', 'input': {'k': k, 'lo': 48, 'hi': 84, 'evs': [60 + i for i in range(len(figs))],
+                                            'figs': copy.deepcopy(figs)}})
+    # squash by +7 (C major melody squashed to G): chords C G must become G D
+    out.append({'op': 'ls_s', 'input': {'lo': 48, 'hi': 84, 'key': 7, 'evs': [60, 62, 64, 65, 67, 69, 71, 72],
+                                        'figs': [sym_of_figure(f) for f in ['C', 'G', 'C', 'G', 'D', 'D', 'A', 'E']]}})
     out.append({'op': 'clamp', 'input': [-5, 60, 72, 58, 80]})
     out.append({'op': 'clamp', 'input': [12, 60, 72, 58, 80]})
     out.append({'op': 'clamp', 'input': [0, 60, 72, 60, 72]})
@@ -389,14 +442,23 @@ def cases(rng, tier, n=None):
     # --- progressions and lead sheets
     for _ in range(25000 if thorough else 500):
         nn = rng.randint(0, 6)
-        figs = [gen_text(rng, p_nc=0.25, p_bad=0.03) for _ in range(nn)]
-        out.append({'op': 'prog', 'input': {'k': rng.randint(-30, 30), 'figs': figs}})
+        k = rng.randint(-30, 30) if rng.random() < 0.5 else rng.randint(-12, 12)
+        if rng.random() < 0.6:
+            figs = gen_chain(rng, k, rng.randint(2, 8))
+        else:
+            figs = [gen_text(rng, p_nc=0.25, p_bad=0.03) for _ in range(nn)]
+        out.append({'op': 'prog', 'input': {'k': k, 'figs': figs}})
     for _ in range(25000 if thorough else 500):
         nn = rng.randint(0, 8)
-        figs = [gen_text(rng, p_nc=0.25, p_bad=0.02) for _ in range(nn)]
+        k = rng.randint(-30, 30) if rng.random() < 0.5 else rng.randint(-12, 12)
+        if rng.random() < 0.6:
+            nn = rng.randint(2, 8)
+            figs = gen_chain(rng, k, nn)          # for ls_s the interval of the chain is a guess at squash's amount
+        else:
+            figs = [gen_text(rng, p_nc=0.25, p_bad=0.02) for _ in range(nn)]
         lo, hi = gen_range(rng)
         if rng.random() < 0.5:
-            out.append({'op': 'ls_t', 'input': {'k': rng.randint(-30, 30), 'lo': lo, 'hi': hi,
+            out.append({'op': 'ls_t', 'input': {'k': k, 'lo': lo, 'hi': hi,
                                                 'evs': gen_events(rng, nn), 'figs': figs}})
         else:
             out.append({'op': 'ls_s', 'input': {'lo': lo, 'hi': hi, 'key': rng.randrange(12),
